@@ -34,6 +34,9 @@ ROOMS = ('r1', 'r2')
 USERS = ('me', 'a', 'b')
 ME = 'me'
 NONE = 'none'
+INIT_STATS = 9      # RoomReplica!InitStats: the stats value of the AddUser replies before the history starts
+SELF_KINDS = ('JoinRoom', 'LeaveRoom', 'PrivateRoomMembershipGranted', 'PrivateRoomMembershipRevoked',
+              'PrivateRoomOperatorGranted', 'PrivateRoomOperatorRevoked')
 
 DEFECTS = {
     'F19-1': ('MC_defect1.cfg', 'own operator grant discards instead of adds (room/manager.py:416)'),
@@ -103,12 +106,24 @@ class Concretiser:
         self.text_back = {v: k for k, v in self.text.items()}
         self._stats: dict = {}
         self._stats_back: dict = {}
+        # The fold says the last announcement wins, also when it carries a falsy number after a truthy
+        # one: one of the abstract stats values is mapped to numbers with zeros (all four fields, or a
+        # random non-empty subset of them), every other value to non-zero numbers.
+        self.zero_value = self.rng.choice([0, 0, 1, 1, 2, INIT_STATS])
+        if self.rng.random() < 0.5:
+            self.zero_fields = (0, 1, 2, 3)
+        else:
+            self.zero_fields = tuple(i for i in range(4) if self.rng.random() < 0.5) or (self.rng.randrange(4),)
 
     def stats_tuple(self, v: int):
         if v not in self._stats:
             while True:
-                t = (self.rng.randrange(0, 2 ** 31 - 1), self.rng.randrange(0, 2 ** 40),
-                     self.rng.randrange(0, 2 ** 31 - 1), self.rng.randrange(0, 2 ** 31 - 1))
+                t = [self.rng.randrange(1, 2 ** 31 - 1), self.rng.randrange(1, 2 ** 40),
+                     self.rng.randrange(1, 2 ** 31 - 1), self.rng.randrange(1, 2 ** 31 - 1)]
+                if v == self.zero_value:
+                    for i in self.zero_fields:
+                        t[i] = 0
+                t = tuple(t)
                 if t not in self._stats_back:
                     break
             self._stats[v] = t
@@ -359,7 +374,8 @@ async def _run_history(loop, job, events):
         srv = await ScriptedServer(net).start()
 
         def add_user(server, sess, msg):
-            return [M.AddUser.Response(msg.username, True, 2, P.UserStats(*cz.stats_tuple(0)), cz.rng.choice(COUNTRIES))]
+            return [M.AddUser.Response(msg.username, True, 2, P.UserStats(*cz.stats_tuple(INIT_STATS)),
+                                       cz.rng.choice(COUNTRIES))]
         srv.handlers[M.AddUser.Request] = add_user
 
         client = make_client(_settings(cz.user[ME], tuple(sorted(blocked.items()))))
@@ -381,7 +397,8 @@ async def _run_history(loop, job, events):
         for note in job['notes']:
             note = dict(note)
             if note['kind'] == 'PrivateChatMessage':
-                note['id'] = cz.rng.randrange(1, 2 ** 31 - 1)
+                # (0 is a chat id like any other: it has to be acknowledged too)
+                note['id'] = 0 if cz.rng.random() < 0.15 else cz.rng.randrange(1, 2 ** 31 - 1)
             sess.send(build_message(M, P, note, cz))
             await vloop.settle(loop)
             acks = [m.chat_id for m in srv.requests(M.PrivateChatMessageAck.Request)[nacks:]]
@@ -487,7 +504,8 @@ def _fingerprint(tid, info, trace):
 def _corruptions(traces):
     """(name, corrupted trace) pairs made from accepted traces."""
     out = []
-    want = ['joined', 'users', 'operators', 'status', 'event-room', 'event-missing', 'ack', 'privileged', 'tickers']
+    want = ['joined', 'users', 'operators', 'status', 'stats', 'event-room', 'event-missing', 'ack', 'privileged',
+            'tickers']
     for tr in traces:
         if not want:
             break
@@ -514,6 +532,11 @@ def _corruptions(traces):
                     if u['name'] == ME:
                         u['status'] = (u['status'] + 1) % 3
                         done = 'status'
+            elif 'stats' in want and e['kind'] == 'GetUserStats' and e['user'] == ME:
+                for u in snap['users']:
+                    if u['name'] == ME:
+                        u['stats'] = 99          # what the projection reports for a mix of old and new numbers
+                        done = 'stats'
             elif 'privileged' in want and e['kind'] == 'PrivilegedUsers':
                 for u in snap['users']:
                     if u['name'] == ME:
@@ -582,6 +605,10 @@ def _interaction(notes):
         score += 2
     ua = {a['user'], a['own'], *a['set'], *a['ops'], *(u for u, _ in a['tk'])} - {NONE}
     ub = {b['user'], b['own'], *b['set'], *b['ops'], *(u for u, _ in b['tk'])} - {NONE}
+    if a['kind'] in SELF_KINDS:
+        ua.add(ME)
+    if b['kind'] in SELF_KINDS:
+        ub.add(ME)
     if not ua or not ub or ua & ub:
         score += 1
     return score
